@@ -142,3 +142,353 @@ Proof.
 Qed.
 
 End Ins.
+
+(* ------------------------------------------------------------------ the heap side *)
+Section Ins2.
+Variable rank : elt -> Z.
+
+Definition dres_of (z : zres) : dres :=
+  match z with ZExists e => DExists e | ZAt _ i _ _ _ _ cmp => DParent i cmp end.
+
+Lemma h_descend_sim : forall dup x h t c par fuel i,
+  root_id t = Some i -> rep h t par -> (heightn t <= fuel)%nat ->
+  h_descend rank fuel h dup x i = Some (dres_of (zdesc rank dup x t c), ins_log rank dup x t).
+Proof.
+  intros dup x h. induction t as [|j d b l IHl r IHr]; intros c par fuel i Ri R F; [discriminate|].
+  cbn in Ri. inversion Ri. subst j. cbn [rep] in R. destruct R as (Hi & Rl & Rr).
+  cbn [heightn] in F. destruct fuel as [|f]; [lia|]. cbn [h_descend zdesc ins_log].
+  unfold data_of, left, right. rewrite Hi. cbn [ndata nleft nright].
+  assert (GL : match l with E => True | _ => exists li, root_id l = Some li /\
+            h_descend rank f h dup x li = Some (dres_of (zdesc rank dup x l (CL i d b r c)), ins_log rank dup x l) end).
+  { destruct l as [|li ld lb ll lr]; [exact I|]. exists li. split; [reflexivity|].
+    eapply IHl; [reflexivity|eassumption|lia]. }
+  assert (GR : match r with E => True | _ => exists ri, root_id r = Some ri /\
+            h_descend rank f h dup x ri = Some (dres_of (zdesc rank dup x r (CR i d b l c)), ins_log rank dup x r) end).
+  { destruct r as [|ri rd rb rl rr]; [exact I|]. exists ri. split; [reflexivity|].
+    eapply IHr; [reflexivity|eassumption|lia]. }
+  destruct (Z.compare (rank x) (rank d)) eqn:C.
+  - destruct dup; [|reflexivity].
+    destruct r as [|ri rd rb rl rr]; [reflexivity|]. destruct GR as (ri' & E1 & E2). cbn [root_id] in *.
+    inversion E1. subst ri'. rewrite E2. reflexivity.
+  - destruct l as [|li ld lb ll lr]; [reflexivity|]. destruct GL as (li' & E1 & E2). cbn [root_id] in *.
+    inversion E1. subst li'. rewrite E2. reflexivity.
+  - destruct r as [|ri rd rb rl rr]; [reflexivity|]. destruct GR as (ri' & E1 & E2). cbn [root_id] in *.
+    inversion E1. subst ri'. rewrite E2. reflexivity.
+Qed.
+
+
+Lemma root_id_plug' : forall c t, root_id (plug c t) = ctx_root c (root_id t).
+Proof. exact root_id_plug. Qed.
+
+Lemma h_ins_retrace_sim : forall c t lg h rt fuel i,
+  root_id t = Some i ->
+  NoDup (ids t ++ cids c) -> rep h t (ctx_id c) -> repc h c (Some i) ->
+  avl t -> avlc c (height t - 1) -> bal_of t <> 0 ->
+  rt = ctx_root c (Some i) -> (clen c < fuel)%nat ->
+  exists h', h_ins_retrace fuel h rt i lg = Some (h', root_id (fst (up_ins c t lg)), snd (up_ins c t lg)) /\
+             rep h' (fst (up_ins c t lg)) None /\
+             (forall j, ~ In j (ids t ++ cids c) -> hget h' j = hget h j).
+Proof.
+  induction c as [|g d b r c IH|g d b l c IH]; intros t lg h rt fuel i Ri ND R RC A AC NZ Hrt F.
+  - destruct fuel as [|f]; [cbn in F; lia|]. cbn [h_ins_retrace up_ins fst snd].
+    destruct t as [|i' d' b' l' r']; [discriminate|]. cbn in Ri. inversion Ri. subst i'.
+    pose proof R as R0. cbn [rep ctx_id] in R. destruct R as (Hi & _). unfold parent. rewrite Hi. cbn [npar].
+    exists h. cbn in Hrt. subst rt. split; [reflexivity|]. split; [exact R0|auto].
+  - destruct fuel as [|f]; [cbn in F; lia|]. cbn [clen] in F.
+    assert (Hi : parent h i = Some g).
+    { destruct t as [|i' d' b' l' r']; [discriminate|]. cbn in Ri. inversion Ri. subst i'.
+      cbn [rep ctx_id] in R. destruct R as (Hi & _). unfold parent. rewrite Hi. reflexivity. }
+    cbn [repc] in RC. destruct RC as (Hg & Rr & RC).
+    cbn [avlc] in AC. destruct AC as (Ar & Hb & Rb & AC).
+    cbn [h_ins_retrace]. rewrite Hi.
+    assert (PL : ptr_is (left h g) i = true) by (unfold left; rewrite Hg; cbn [nleft]; apply ptr_is_refl).
+    rewrite !PL. rewrite !(bal_get _ _ _ Hg). cbn [nbal].
+    set (h1 := set_bal h g (b + -1)).
+    cbn [cids] in ND. cbn [cids].
+    assert (Ig : In i (ids t)) by (apply root_id_in; assumption).
+    assert (Hg1 : hget h1 g = Some (mkNode d (b - 1) (ctx_id c) (Some i) (root_id r))).
+    { subst h1. rewrite hget_set_bal. eqb_simp. rewrite Hg. cbn. replace (b + -1) with (b - 1) by lia. reflexivity. }
+    assert (F1 : forall j, j <> g -> hget h1 j = hget h j) by (intros; subst h1; apply hget_set_bal_other; assumption).
+    rewrite !(bal_get _ _ _ Hg1). cbn [nbal].
+    set (t1 := N g d (b - 1) t r).
+    assert (ND1 : NoDup (ids t1 ++ cids c)) by (subst t1; rewrite ids_N; nd_perm ND).
+    assert (R1 : rep h1 t1 (ctx_id c)).
+    { subst t1. cbn [rep]. rewrite Ri. repeat split; [assumption| |].
+      - eapply rep_ext; [|exact R]. intros j Hj. apply F1. nd_neq ND.
+      - eapply rep_ext; [|exact Rr]. intros j Hj. apply F1. nd_neq ND. }
+    assert (RC1 : repc h1 c (Some g)).
+    { eapply repc_ext; [|exact RC]. intros j Hj. apply F1. nd_neq ND. }
+    assert (Frame1 : forall j, ~ In j (ids t ++ g :: ids r ++ cids c) -> ~ In j (ids t1 ++ cids c)).
+    { intros j Hj X. apply Hj. subst t1. rewrite ids_N in X. revert X. in_tauto. }
+    cbn [up_ins]. unfold retrace_ins. cbn [bal_of].
+    destruct ((b - 1 =? -2) || (b - 1 =? 2)) eqn:B2.
+    + assert (Hb1 : b - 1 = height r - height t) by lia.
+      destruct (h_rebalance_sim h1 c g d (b - 1) t r rt ND1 R1 RC1 A Ar Hb1) as (h' & repl & Erepl & Ereb & OK).
+      { rewrite Hrt. reflexivity. }
+      fold t1 in Erepl, Ereb, OK. rewrite Ereb. fold t1.
+      destruct (rebalance t1) as [[t' hc] lg2]. cbn [fst snd] in *.
+      destruct OK as (R' & RC' & Eids & Fr).
+      exists h'. rewrite root_id_plug. rewrite Erepl. split; [reflexivity|]. split.
+      * apply rep_plug. split; assumption.
+      * intros j Hj. rewrite Fr by (apply Frame1; assumption). apply F1. intros ->. apply Hj. in_tauto.
+    + destruct (b - 1 =? 0) eqn:B0.
+      * exists h1. cbn [fst snd]. rewrite root_id_plug. cbn [root_id]. split; [rewrite Hrt; reflexivity|]. split.
+        -- apply rep_plug. split; assumption.
+        -- intros j Hj. apply F1. intros ->. apply Hj. in_tauto.
+      * assert (b - 1 = -1) by lia.
+        destruct (IH t1 lg h1 rt f g eq_refl ND1 R1 RC1) as (h' & E1 & R' & Fr).
+        -- subst t1. cbn [avl]. repeat split; try assumption; lia.
+        -- subst t1. cbn [height]. replace (1 + Z.max (height t) (height r) - 1) with (1 + Z.max (height t - 1) (height r)) by lia. assumption.
+        -- subst t1. cbn [bal_of]. lia.
+        -- rewrite Hrt. reflexivity.
+        -- lia.
+        -- exists h'. split; [exact E1|]. split; [exact R'|].
+           intros j Hj. rewrite Fr by (apply Frame1; assumption). apply F1. intros ->. apply Hj. in_tauto.
+  - destruct fuel as [|f]; [cbn in F; lia|]. cbn [clen] in F.
+    assert (Hi : parent h i = Some g).
+    { destruct t as [|i' d' b' l' r']; [discriminate|]. cbn in Ri. inversion Ri. subst i'.
+      cbn [rep ctx_id] in R. destruct R as (Hi & _). unfold parent. rewrite Hi. reflexivity. }
+    cbn [repc] in RC. destruct RC as (Hg & Rl & RC).
+    cbn [avlc] in AC. destruct AC as (Al & Hb & Rb & AC).
+    cbn [cids] in ND. cbn [cids].
+    assert (Ig : In i (ids t)) by (apply root_id_in; assumption).
+    cbn [h_ins_retrace]. rewrite Hi.
+    assert (PL : ptr_is (left h g) i = false).
+    { unfold left. rewrite Hg. cbn [nleft]. apply ptr_is_false. intros X. apply root_id_in in X. nd_absurd ND i. }
+    rewrite !PL. rewrite !(bal_get _ _ _ Hg). cbn [nbal].
+    set (h1 := set_bal h g (b + 1)).
+    assert (Hg1 : hget h1 g = Some (mkNode d (b + 1) (ctx_id c) (root_id l) (Some i))).
+    { subst h1. rewrite hget_set_bal. eqb_simp. rewrite Hg. reflexivity. }
+    assert (F1 : forall j, j <> g -> hget h1 j = hget h j) by (intros; subst h1; apply hget_set_bal_other; assumption).
+    rewrite !(bal_get _ _ _ Hg1). cbn [nbal].
+    set (t1 := N g d (b + 1) l t).
+    assert (ND1 : NoDup (ids t1 ++ cids c)) by (subst t1; rewrite ids_N; nd_perm ND).
+    assert (R1 : rep h1 t1 (ctx_id c)).
+    { subst t1. cbn [rep]. rewrite Ri. repeat split; [assumption| |].
+      - eapply rep_ext; [|exact Rl]. intros j Hj. apply F1. nd_neq ND.
+      - eapply rep_ext; [|exact R]. intros j Hj. apply F1. nd_neq ND. }
+    assert (RC1 : repc h1 c (Some g)).
+    { eapply repc_ext; [|exact RC]. intros j Hj. apply F1. nd_neq ND. }
+    assert (Frame1 : forall j, ~ In j (ids t ++ g :: ids l ++ cids c) -> ~ In j (ids t1 ++ cids c)).
+    { intros j Hj X. apply Hj. subst t1. rewrite ids_N in X. revert X. in_tauto. }
+    cbn [up_ins]. unfold retrace_ins. cbn [bal_of].
+    destruct ((b + 1 =? -2) || (b + 1 =? 2)) eqn:B2.
+    + assert (Hb1 : b + 1 = height t - height l) by lia.
+      destruct (h_rebalance_sim h1 c g d (b + 1) l t rt ND1 R1 RC1 Al A Hb1) as (h' & repl & Erepl & Ereb & OK).
+      { rewrite Hrt. reflexivity. }
+      fold t1 in Erepl, Ereb, OK. rewrite Ereb. fold t1.
+      destruct (rebalance t1) as [[t' hc] lg2]. cbn [fst snd] in *.
+      destruct OK as (R' & RC' & Eids & Fr).
+      exists h'. rewrite root_id_plug. rewrite Erepl. split; [reflexivity|]. split.
+      * apply rep_plug. split; assumption.
+      * intros j Hj. rewrite Fr by (apply Frame1; assumption). apply F1. intros ->. apply Hj. in_tauto.
+    + destruct (b + 1 =? 0) eqn:B0.
+      * exists h1. cbn [fst snd]. rewrite root_id_plug. cbn [root_id]. split; [rewrite Hrt; reflexivity|]. split.
+        -- apply rep_plug. split; assumption.
+        -- intros j Hj. apply F1. intros ->. apply Hj. in_tauto.
+      * assert (b + 1 = 1) by lia.
+        destruct (IH t1 lg h1 rt f g eq_refl ND1 R1 RC1) as (h' & E1 & R' & Fr).
+        -- subst t1. cbn [avl]. repeat split; try assumption; lia.
+        -- subst t1. cbn [height]. replace (1 + Z.max (height l) (height t) - 1) with (1 + Z.max (height l) (height t - 1)) by lia. assumption.
+        -- subst t1. cbn [bal_of]. lia.
+        -- rewrite Hrt. reflexivity.
+        -- lia.
+        -- exists h'. split; [exact E1|]. split; [exact R'|].
+           intros j Hj. rewrite Fr by (apply Frame1; assumption). apply F1. intros ->. apply Hj. in_tauto.
+Qed.
+
+
+Lemma ids_elems_eq : forall t t', elems t' = elems t -> ids t' = ids t.
+Proof. intros t t' H. unfold ids. rewrite H. reflexivity. Qed.
+
+Lemma up_ins_perm : forall c t lg, Permutation (ids (fst (up_ins c t lg))) (ids t ++ cids c).
+Proof.
+  induction c as [|i d b r c IH|i d b l c IH]; intros t lg; cbn [up_ins cids].
+  - cbn [fst]. rewrite app_nil_r. apply Permutation_refl.
+  - destruct (retrace_ins_elems (N i d (b - 1) t r) lg) as (t' & g & lg' & E1 & E2). rewrite E1.
+    apply ids_elems_eq in E2. rewrite ids_N in E2.
+    assert (X : Permutation (ids t' ++ cids c) (ids t ++ i :: ids r ++ cids c)).
+    { rewrite E2. rewrite <- app_assoc. reflexivity. }
+    destruct g.
+    + eapply Permutation_trans; [apply IH|exact X].
+    + cbn [fst]. eapply Permutation_trans; [apply ids_plug_perm|exact X].
+  - destruct (retrace_ins_elems (N i d (b + 1) l t) lg) as (t' & g & lg' & E1 & E2). rewrite E1.
+    apply ids_elems_eq in E2. rewrite ids_N in E2.
+    assert (X : Permutation (ids t' ++ cids c) (ids t ++ i :: ids l ++ cids c)).
+    { rewrite E2. rewrite <- app_assoc.
+      change (ids l ++ (i :: ids t) ++ cids c) with (ids l ++ ((i :: ids t) ++ cids c)).
+      eapply Permutation_trans; [apply Permutation_app_swap_app|]. cbn [app].
+      apply (Permutation_middle (ids t) (ids l ++ cids c) i). }
+    destruct g.
+    + eapply Permutation_trans; [apply IH|exact X].
+    + cbn [fst]. eapply Permutation_trans; [apply ids_plug_perm|exact X].
+Qed.
+
+Lemma h_link_sim : forall h c p d b l r id x cmp,
+  rep h (N p d b l r) (ctx_id c) -> repc h c (Some p) ->
+  NoDup (ids (N p d b l r) ++ cids c) -> ~ In id (ids (N p d b l r) ++ cids c) ->
+  (cmp = Lt -> l = E) -> (cmp <> Lt -> r = E) ->
+  let h0 := hset h id (mkNode x 0 (Some p) None None) in
+  let tl := fst (zlink id x p d b l r cmp) in
+  snd (h_link h0 p id cmp) = snd (zlink id x p d b l r cmp) /\
+  rep (fst (h_link h0 p id cmp)) tl (ctx_id c) /\ repc (fst (h_link h0 p id cmp)) c (Some p) /\
+  (forall j, j <> id -> j <> p -> hget (fst (h_link h0 p id cmp)) j = hget h j).
+Proof.
+  intros h c p d b l r id x cmp R RC ND Nid HL HR h0 tl.
+  cbn [rep] in R. destruct R as (Hp & Rl & Rr). rewrite ids_N in ND, Nid.
+  assert (Npid : p <> id) by (intros ->; apply Nid; in_tauto).
+  assert (G0 : forall j, hget h0 j = if j =? id then Some (mkNode x 0 (Some p) None None) else hget h j).
+  { intros j. subst h0. apply hget_hset. }
+  assert (LT : cmp = Lt \/ cmp <> Lt) by (destruct cmp; [right|left|right]; congruence).
+  destruct LT as [->|NLt].
+  - specialize (HL eq_refl). subst l. subst tl. cbn [zlink fst snd h_link].
+    set (h1 := set_left h0 p (Some id)).
+    assert (Hp1 : hget h1 p = Some (mkNode d b (ctx_id c) (Some id) (root_id r))).
+    { subst h1. rewrite hget_set_left. eqb_simp. rewrite G0. eqb_simp. rewrite Hp. reflexivity. }
+    rewrite (bal_get _ _ _ Hp1). cbn [nbal].
+    set (h2 := set_bal h1 p (b - 1)).
+    assert (Hp2 : hget h2 p = Some (mkNode d (b - 1) (ctx_id c) (Some id) (root_id r))).
+    { subst h2. rewrite hget_set_bal. eqb_simp. rewrite Hp1. reflexivity. }
+    assert (F2 : forall j, j <> p -> hget h2 j = hget h0 j).
+    { intros j A. subst h2 h1. rewrite hget_set_bal. eqb_simp. rewrite hget_set_left. eqb_simp. reflexivity. }
+    split; [|split; [|split]].
+    + unfold right. rewrite Hp2. cbn [nright]. destruct r; reflexivity.
+    + cbn [rep root_id]. repeat split; [assumption| |].
+      * rewrite F2 by congruence. rewrite G0. eqb_simp. reflexivity.
+      * eapply rep_ext; [|exact Rr]. intros j Hj. rewrite F2 by nd_neq ND. rewrite G0.
+        assert (j <> id) by (intros ->; apply Nid; in_tauto). eqb_simp. reflexivity.
+    + eapply repc_ext; [|exact RC]. intros j Hj. rewrite F2 by nd_neq ND. rewrite G0.
+      assert (j <> id) by (intros ->; apply Nid; in_tauto). eqb_simp. reflexivity.
+    + intros j A B. rewrite F2 by assumption. rewrite G0. eqb_simp. reflexivity.
+  - specialize (HR NLt). subst r. subst tl.
+    assert (EL : h_link h0 p id cmp =
+       (set_bal (set_right h0 p (Some id)) p (bal (set_right h0 p (Some id)) p + 1),
+        match left (set_bal (set_right h0 p (Some id)) p (bal (set_right h0 p (Some id)) p + 1)) p with None => true | Some _ => false end)).
+    { destruct cmp; [reflexivity|congruence|reflexivity]. }
+    assert (EZ : zlink id x p d b l E cmp = (N p d (b + 1) l (N id x 0 E E), is_E l)).
+    { destruct cmp; [reflexivity|congruence|reflexivity]. }
+    rewrite EL, EZ. cbn [fst snd].
+    set (h1 := set_right h0 p (Some id)).
+    assert (Hp1 : hget h1 p = Some (mkNode d b (ctx_id c) (root_id l) (Some id))).
+    { subst h1. rewrite hget_set_right. eqb_simp. rewrite G0. eqb_simp. rewrite Hp. reflexivity. }
+    rewrite (bal_get _ _ _ Hp1). cbn [nbal].
+    set (h2 := set_bal h1 p (b + 1)).
+    assert (Hp2 : hget h2 p = Some (mkNode d (b + 1) (ctx_id c) (root_id l) (Some id))).
+    { subst h2. rewrite hget_set_bal. eqb_simp. rewrite Hp1. reflexivity. }
+    assert (F2 : forall j, j <> p -> hget h2 j = hget h0 j).
+    { intros j A. subst h2 h1. rewrite hget_set_bal. eqb_simp. rewrite hget_set_right. eqb_simp. reflexivity. }
+    split; [|split; [|split]].
+    + unfold left. rewrite Hp2. cbn [nleft]. destruct l; reflexivity.
+    + cbn [rep root_id]. repeat split; [assumption| |].
+      * eapply rep_ext; [|exact Rl]. intros j Hj. rewrite F2 by nd_neq ND. rewrite G0.
+        assert (j <> id) by (intros ->; apply Nid; in_tauto). eqb_simp. reflexivity.
+      * rewrite F2 by congruence. rewrite G0. eqb_simp. reflexivity.
+    + eapply repc_ext; [|exact RC]. intros j Hj. rewrite F2 by nd_neq ND. rewrite G0.
+      assert (j <> id) by (intros ->; apply Nid; in_tauto). eqb_simp. reflexivity.
+    + intros j A B. rewrite F2 by assumption. rewrite G0. eqb_simp. reflexivity.
+Qed.
+
+
+Lemma h_insert_sim : forall dup x o st fs s it fs' o' rc,
+  Rep st fs -> inv rank dup fs ->
+  insert rank dup x o fs = (s, it, fs', o', rc) ->
+  exists st', h_insert rank dup x o st = Some (s, it, st', o', rc, ins_log rank dup x (root fs)) /\ Rep st' fs'.
+Proof.
+  intros dup x o st fs s it fs' o' rc (R & Hroot & Hsize & Hnext & Dom) (_ & A & Sz & ND & Lt & _ & _) EI.
+  unfold insert in EI. unfold h_insert. rewrite Hroot, Hnext, Hsize.
+  remember (root fs) as T eqn:HT. set (id := nextid fs) in *.
+  assert (Nid : ~ In id (ids T)) by (intros X; apply Lt in X; lia).
+  assert (Hid : hget (hp st) id = None).
+  { destruct (hget (hp st) id) eqn:G; [|reflexivity]. exfalso. apply Nid. apply Dom. rewrite G. discriminate. }
+  destruct T as [|i0 d0 b0 l0 r0].
+  - (* empty tree *)
+    cbn [root_id ins ins_log] in *. destruct (alloc o) as [ok o1]. destruct ok; cbn [negb].
+    + inversion EI. subst. eexists. split; [reflexivity|]. unfold Rep. cbn [hp hroot hsize hnextid root size nextid].
+      repeat split.
+      * rewrite hget_hset. eqb_simp. reflexivity.
+      * intros j Hj. rewrite hget_hset in Hj. destruct (j =? id) eqn:C; [cbn; left; lia|]. exfalso. apply (Dom j Hj).
+    + inversion EI. subst. eexists. split; [reflexivity|]. unfold Rep. cbn [hp hroot hsize hnextid root size nextid].
+      repeat split; try assumption; try reflexivity; try apply R.
+  - remember (N i0 d0 b0 l0 r0) as T eqn:ET. assert (NE : T <> E) by (rewrite ET; discriminate).
+    assert (Ri0 : root_id T = Some i0) by (rewrite ET; reflexivity). rewrite Ri0.
+    assert (FU : (heightn T <= fuel_of st)%nat).
+    { unfold fuel_of. rewrite Hsize, Sz. pose proof (heightn_le_count T). lia. }
+    rewrite (h_descend_sim dup x (hp st) T Top None (fuel_of st) i0 Ri0 R FU).
+    pose proof (ins_zip rank dup x id T Top NE) as ZZ.
+    destruct (zdesc rank dup x T Top) as [e|c p d b l r cmp]; cbn [dres_of].
+    + rewrite ZZ in EI. inversion EI. subst. eexists. split; [reflexivity|].
+      unfold Rep. cbn [hp hroot hsize hnextid root size nextid]. repeat split; try assumption; try reflexivity; try apply R.
+    + destruct ZZ as (P & HL & HR & _ & _ & t' & g & lg & EI2 & EU). cbn [plug] in P.
+      rewrite EI2 in EI. destruct (alloc o) as [ok o1]. destruct ok; cbn [negb].
+      2:{ inversion EI. subst. eexists. split; [reflexivity|].
+          unfold Rep. cbn [hp hroot hsize hnextid root size nextid]. repeat split; try assumption; try reflexivity; try apply R. }
+      inversion EI. subst s it fs' o' rc. clear EI.
+      assert (EU' : up_or_plug g Top t' lg = (t', lg)) by (destruct g; reflexivity). rewrite EU' in EU. clear EU'.
+      rewrite <- P in R, ND, Nid, A. apply rep_plug in R. destruct R as (Rp & RCp).
+      apply nodup_plug in ND.
+      assert (Nid2 : ~ In id (ids (N p d b l r) ++ cids c)).
+      { intros X. apply Nid. apply in_ids_plug. apply in_app_or in X. assumption. }
+      destruct (h_link_sim (hp st) c p d b l r id x cmp Rp RCp ND Nid2 HL HR) as (EInc & Rl & RCl & Fl).
+      set (h0 := hset (hp st) id (mkNode x 0 (Some p) None None)) in *.
+      destruct (h_link h0 p id cmp) as [h1 inc]. cbn [fst snd] in *.
+      set (tl := fst (zlink id x p d b l r cmp)) in *.
+      assert (Itl : forall j, In j (ids tl ++ cids c) <-> j = id \/ In j (ids (N p d b l r) ++ cids c)).
+      { intros j. subst tl. unfold zlink.
+        destruct cmp; cbn [fst]; [rewrite (HR ltac:(discriminate))|rewrite (HL eq_refl)|rewrite (HR ltac:(discriminate))];
+          rewrite !ids_N; cbn [ids elems map app];
+          repeat first [rewrite in_app_iff | progress cbn [In]]; intuition congruence. }
+      assert (NDtl : NoDup (ids tl ++ cids c)).
+      { apply (Permutation_NoDup (l := id :: ids (N p d b l r) ++ cids c)); [|constructor; assumption].
+        apply NoDup_Permutation_bis.
+        - constructor; assumption.
+        - subst tl. unfold zlink.
+          destruct cmp; cbn [fst]; [rewrite (HR ltac:(discriminate))|rewrite (HL eq_refl)|rewrite (HR ltac:(discriminate))];
+            rewrite !ids_N; cbn [ids elems map app length];
+            repeat (rewrite ?app_length; cbn [length]); lia.
+        - intros j Hj. apply Itl. cbn [In] in Hj. destruct Hj; [left; congruence|right; assumption]. }
+      assert (DomNew : forall h', (forall j, ~ In j (ids tl ++ cids c) -> hget h' j = hget h1 j) ->
+                forall T', (forall j, In j (ids T') <-> In j (ids tl ++ cids c)) ->
+                forall j, hget h' j <> None -> In j (ids T')).
+      { intros h' Fr T' IT j Hj. apply IT. destruct (in_dec Z.eq_dec j (ids tl ++ cids c)) as [Y|N]; [assumption|].
+        exfalso. rewrite (Fr j N) in Hj. rewrite Fl in Hj.
+        - apply N. apply Itl. right. apply in_app_iff. apply in_ids_plug. rewrite P. apply Dom. assumption.
+        - intros ->. apply N. apply Itl. left. reflexivity.
+        - intros ->. apply N. apply Itl. right. rewrite ids_N. in_tauto. }
+      rewrite EInc. destruct (snd (zlink id x p d b l r cmp)) eqn:EG; unfold up_or_plug in EU.
+      * (* the parent's height increased: retrace *)
+        assert (Rtl : root_id tl = Some p) by (subst tl; unfold zlink; destruct cmp; reflexivity).
+        apply avl_plug in A. destruct A as (Ap & ACp).
+        assert (AVL : avl tl /\ avlc c (height tl - 1) /\ bal_of tl <> 0).
+        { subst tl. unfold zlink in *. cbn [avl] in Ap. destruct Ap as (Al & Ar & Hb & Rb).
+          destruct cmp; cbn [fst snd] in *.
+          - apply is_E_true in EG. subst l. rewrite HR in * by discriminate. cbn [height avl bal_of] in *.
+            replace (1 + Z.max 0 (1 + Z.max 0 0) - 1) with (1 + Z.max 0 0) by lia. repeat split; try assumption; lia.
+          - apply is_E_true in EG. subst r. rewrite HL in * by reflexivity. cbn [height avl bal_of] in *.
+            replace (1 + Z.max (1 + Z.max 0 0) 0 - 1) with (1 + Z.max 0 0) by lia. repeat split; try assumption; lia.
+          - apply is_E_true in EG. subst l. rewrite HR in * by discriminate. cbn [height avl bal_of] in *.
+            replace (1 + Z.max 0 (1 + Z.max 0 0) - 1) with (1 + Z.max 0 0) by lia. repeat split; try assumption; lia. }
+        destruct AVL as (Atl & ACtl & NZtl).
+        destruct (h_ins_retrace_sim c tl [] h1 (Some i0) (fuel_of st) p Rtl NDtl Rl RCl Atl ACtl NZtl) as (h' & E1 & R' & Fr).
+        { rewrite <- Ri0. rewrite <- P. rewrite root_id_plug. reflexivity. }
+        { pose proof (height_plug_bound c (N p d b l r)) as HB. rewrite P in HB. cbn [heightn] in HB. lia. }
+        pose proof (up_ins_perm c tl []) as PM.
+        rewrite EU in E1, R', PM. cbn [fst snd] in E1, R', PM. rewrite E1. eexists. split; [reflexivity|].
+        unfold Rep. cbn [hp hroot hsize hnextid root size nextid].
+        split; [exact R'|]. split; [reflexivity|]. split; [lia|]. split; [lia|].
+        apply (DomNew h' Fr). intros j. split; intros X.
+        -- eapply Permutation_in; [exact PM|exact X].
+        -- eapply Permutation_in; [apply Permutation_sym; exact PM|exact X].
+      * assert (Et' : t' = plug c tl) by (inversion EU; reflexivity).
+        assert (Elg : lg = []) by (inversion EU; reflexivity). rewrite Elg.
+        eexists. split; [reflexivity|].
+        unfold Rep. cbn [hp hroot hsize hnextid root size nextid].
+        repeat split; try assumption; try lia.
+        -- rewrite Et'. apply rep_plug. split; [assumption|].
+           replace (root_id tl) with (Some p) by (subst tl; unfold zlink; destruct cmp; reflexivity). assumption.
+        -- rewrite Et'. rewrite root_id_plug.
+           replace (root_id tl) with (Some p) by (subst tl; unfold zlink; destruct cmp; reflexivity).
+           rewrite <- Ri0, <- P, root_id_plug. reflexivity.
+        -- apply (DomNew h1 (fun j _ => eq_refl)). intros j. rewrite Et'. rewrite in_ids_plug. rewrite in_app_iff. tauto.
+Qed.
+
+End Ins2.
